@@ -23,7 +23,10 @@ try: got = json.load(open(fo))
 except Exception: got = {}; R.fail("xcheck.interpreter_ran", "interpreter side failed", {}, pr.stderr[-600:])
 for k, e in exp.items():
     g = got.get(k, {"error": "missing"}); R.case(k, dict(config=k, expected_shape=e["shape"]))
-    if "error" in g: R.fail("xcheck.interpreter_ran", "interpreter raised on real source", dict(config=k), g["error"]); continue
+    if "error" in g:
+        if "Unsupported" in g["error"]: continue            # source outside the interpreter's subset: nothing to cross-check (not a property matter)
+        R.fail("xcheck.interpreter_ran", "interpreter raised on real source", dict(config=k), g["error"]); continue
     ok = len(g["new"]) == len(e["new"]) and np.allclose(g["new"], e["new"], atol=1e-9) and g["policy"] == e["policy"] and g["shape"] == e["shape"] and g["n_pad"] == e["n_pad"] and abs(g["thr"] - e["thr"]) < 1e-6
     if not ok: R.fail("xcheck.models_agree_with_jax", "pyvc's concrete execution of the real source disagrees with JAX", dict(config=k), g, e)
+for f in R.failures: f["engine"] = True                  # a disagreement here means the ENGINE's library models are wrong, not the repository
 R.write(a.out)
